@@ -62,6 +62,9 @@ def run(ctx, rep, tier):
     rep.rule("DF", "snapshotted pin offsets refreshed when orientation changes", 1)
     rep.rule("SR", "optimisation passes never read (stale) coordinates back from the Circuit", 1)
     rep.rule("QF", "incremental wirelength models are built in the placed frame", 4)
+    rep.rule("MX", "the incremental model the moves are judged on holds every pin of every net, attached to the right model cell (shared with C09)", 4)
+    from .c09 import check_model_index_space
+    check_model_index_space(ctx, rep)
     check_moves(ctx, rep)
     check_probes(ctx, rep)
     from .common import check_sentinels
@@ -71,6 +74,7 @@ def run(ctx, rep, tier):
     check_sync(ctx, rep)
     check_reordering(ctx, rep)
     check_allpins(ctx, rep)
+    check_arc_pairs(ctx, rep)
     check_shift_axis(ctx, rep)
     from .common import check_no_float
     nf, nb = check_no_float(ctx, rep, "NF", lambda c: c == CQ + "IncrNetModel",
@@ -534,6 +538,93 @@ def check_allpins(ctx, rep):
             rep.violation("AP", l["stmt"], f, "a pin of a touched net can be left out of the shift model",
                           "full range: %s; some iteration reaches the next pin without adding an arc: %s" % (full, not covered),
                           key="DetailedPlacer::runShiftsOnCells|pin skipped in LP model")
+
+
+def check_arc_pairs(ctx, rep):
+    """AP (pairs). In the pin loop of the shift LP every pin contributes two arcs, to the lower and to the upper bound node of its net, whose
+    lengths are the pin's position with opposite signs (p and -p, p = offset for a movable cell, cell position + offset for a fixed one).
+    Checked per block as an identity of polynomials: length(first arc) + length(second arc) == 0."""
+    from .c06 import poly
+    prog = ctx.prog
+    f = prog.func1(CQ + "DetailedPlacer::runShiftsOnCells")
+    loops = [for_loop_info(x) for x in walk(f.body) if x.get("kind") == "ForStmt"]
+    loops = [l for l in loops if l and l["hi"] and l["hi"][0] == "call" and l["hi"][1] == CQ + "IncrNetModel::nbNetPins"]
+    n = 0
+    for l in loops:
+        blocks = {}
+        for x in walk(l["body"]):
+            if x.get("kind") == "CXXMemberCallExpr" and callee_info(x)["name"] in ("emplace_back", "push_back") and len(callee_info(x)["args"]) == 2 and \
+                    "constraint" in pretty(canon(callee_info(x)["obj"])):
+                p_ = x.get("_p")
+                while p_ is not None and p_.get("kind") != "CompoundStmt":
+                    p_ = p_.get("_p")
+                blocks.setdefault(id(p_), []).append(x)
+        for xs in blocks.values():
+            if len(xs) != 2:
+                continue
+            n += 1
+            costs = [expand_locals(ctx, f, canon(callee_info(x)["args"][1])) for x in xs]
+            names = {}
+
+            def atom(c_):
+                if c_[0] in ("var", "call", "index", "field", "elem"):
+                    names.setdefault(c_, "a%d" % len(names))
+                    return True
+                return False
+            atoms = {"_": lambda c_: False}
+            pa = _poly_named(costs[0], names)
+            pb = _poly_named(costs[1], names)
+            what = "shift LP: arcs of one pin to the two bound nodes of its net (%s, %s)" % (pretty(costs[0])[:30], pretty(costs[1])[:30])
+            if pa is None or pb is None:
+                rep.unknown("AP", xs[0], f, what, "lengths are not polynomials of positions and offsets")
+                continue
+            tot = dict(pa)
+            for m_, k_ in pb.items():
+                tot[m_] = tot.get(m_, 0) + k_
+            tot = {m_: k_ for m_, k_ in tot.items() if abs(k_) > 1e-12}
+            if not tot:
+                rep.holds("AP", xs[0], f, what, "are opposite: the same pin position bounds the net from below and from above")
+            else:
+                rep.violation("AP", xs[1], f, what, "are not opposite (their sum is not identically 0): the pin bounds its net at two different positions, and between them "
+                              "the model sees no cost for moving the cell", key="DetailedPlacer::runShiftsOnCells|pin arcs not opposite")
+    if n == 0:
+        rep.unknown("AP", f.decl, f, "pin arcs", "no block adding two constraint arcs per pin found (shape changed)")
+
+
+def _poly_named(c, names):
+    t = c[0]
+    if t == "lit":
+        try:
+            return {(): float(str(c[1]).rstrip("fFlLuU"))}
+        except ValueError:
+            return None
+    if t in ("cast", "paren") and len(c) >= 2:
+        return _poly_named(c[-1], names)
+    if t == "bin" and c[1] in ("+", "-"):
+        a, b = _poly_named(c[2], names), _poly_named(c[3], names)
+        if a is None or b is None:
+            return None
+        out = dict(a)
+        for m, k in b.items():
+            out[m] = out.get(m, 0) + (k if c[1] == "+" else -k)
+        return {m: k for m, k in out.items() if abs(k) > 1e-12}
+    if t == "bin" and c[1] == "*":
+        a, b = _poly_named(c[2], names), _poly_named(c[3], names)
+        if a is None or b is None:
+            return None
+        out = {}
+        for m1, k1 in a.items():
+            for m2, k2 in b.items():
+                m = tuple(sorted(m1 + m2))
+                out[m] = out.get(m, 0) + k1 * k2
+        return {m: k for m, k in out.items() if abs(k) > 1e-12}
+    if t == "un" and c[1] == "-":
+        a = _poly_named(c[2], names)
+        return None if a is None else {m: -k for m, k in a.items()}
+    if t in ("var", "call", "index", "field", "elem"):
+        nm = names.setdefault(c, "a%d" % len(names))
+        return {(nm,): 1.0}
+    return None
 
 
 def check_shift_axis(ctx, rep):
